@@ -141,11 +141,7 @@ def _zero_power_checks(net):
             p, q = net["res_" + tab].at[i, "p_mw"], net["res_" + tab].at[i, "q_mvar"]
             if dead and not (p == 0 and q == 0):
                 what = "%s %d is out of service or at a dead bus but reports p=%r q=%r" % (tab, i, p, q)
-                # recorded finding: res_ext_grid keeps its NaN initialisation when no ext_grid row is in service
-                if tab == "ext_grid" and p != p and q != q and not net.ext_grid.in_service.any():
-                    bad.append(("C07-oos-ext-grid-nan", what))
-                else:
-                    bad.append(what)
+                bad.append(what)
             if not dead and not (math.isfinite(p) and math.isfinite(q)):
                 bad.append("%s %d at a supplied bus reports non-finite power" % (tab, i))
     for tab, cols, pc in (("line", ("from_bus", "to_bus"), ("p_from_mw", "q_from_mvar", "p_to_mw", "q_to_mvar")),
@@ -239,8 +235,6 @@ def _check_case(ctx, net, numba, desc, model):
                       % (obs["topo"], want_unsup), js)
     if impl_pf_unsup is not None and impl_pf_unsup != want_unsup:
         kind = "spec"
-        if "bridge" in gw and model_ok and impl_pf_unsup == sorted(isb - spec_supplied_pf(net)):
-            kind = "C07-oos-bus-bridge"
         ctx.violation(kind, "power flow isolates the in-service buses %s but the unsupplied ones are %s (runpp %s)"
                       % (impl_pf_unsup, want_unsup, "converged" if obs["converged"] else "raised " + str(obs["raised"])), js)
     if obs["converged"]:
@@ -274,7 +268,7 @@ def _corpus():
     pp.create_dcline(net, b[1], b[2], p_mw=0.05, loss_percent=1.0, loss_mw=0.0, vm_from_pu=1.0, vm_to_pu=1.0)
     pp.create_load(net, b[2], 0.01)
     out.append(("dcline-only-feed", net))
-    # in-service bus behind an out-of-service bus, joined by two impedances
+    # in-service bus behind an out-of-service bus, joined by two impedances (repaired: must pass)
     net = pp.create_empty_network()
     b = [pp.create_bus(net, 20.0) for _ in range(4)]
     pp.create_ext_grid(net, b[0])
@@ -283,7 +277,7 @@ def _corpus():
     pp.create_impedance(net, b[2], b[3], 0.01, 0.01, 10.0)
     net.bus.at[b[2], "in_service"] = False
     out.append(("oos-bus-bridge", net))
-    # out-of-service ext_grid next to an in-service slack gen
+    # out-of-service ext_grid next to an in-service slack gen (repaired: must pass)
     net = pp.create_empty_network()
     b = [pp.create_bus(net, 20.0) for _ in range(2)]
     pp.create_ext_grid(net, b[0], in_service=False)
@@ -314,6 +308,9 @@ def run(ctx):
     for k in range(ctx.n(150, 2500)):
         r = rng.random()
         net = g.rand_topo_net(rng, allow_bridge=(r < 0.5), dcline=(None if r < 0.8 else False))
+        if k % 6 == 5:
+            net = g.enrich(net, rng)
+            ctx.count("enriched")
         numba = rng.random() < 0.7
         term = g.net_term(net)
         js = pp.to_json(net)
